@@ -37,6 +37,12 @@ QUICK_ZONES = ["Europe/Berlin", "America/New_York", "Africa/Cairo", "Europe/Mins
                "Australia/Sydney", "Pacific/Auckland", "America/Santiago", "Asia/Seoul"]
 
 
+SHARED_INSTANTS = [datetime.datetime(2021, 3, 2, 10, 15, 0, tzinfo=datetime.timezone.utc),
+                   datetime.datetime(2021, 7, 1, 23, 30, 0, tzinfo=datetime.timezone.utc),
+                   datetime.datetime(2024, 1, 10, 12, 0, 0, tzinfo=datetime.timezone.utc),
+                   datetime.datetime(1999, 12, 31, 23, 59, 59, tzinfo=datetime.timezone.utc)]
+
+
 def secs(dt):
     return int((dt.replace(tzinfo=None) - EPOCH).total_seconds())
 
@@ -148,6 +154,14 @@ def run(ctx, res):
             res.corr(f"provider hypothesis lookup(key)=zone ({provider})", zone, tzid_from_tzinfo(z0),
                      "UTC" if zone in ("UTC", "Etc/UTC") and tzid_from_tzinfo(z0) == "UTC" else zone)
             walls = walls_for(zone, rng, nw)
+            # the same instants in every zone (values that are equal as Python datetimes although their wall clocks and
+            # zones differ must still be written each with its own wall clock)
+            try:
+                zi = zoneinfo.ZoneInfo(zone)
+                shared = [secs(i.astimezone(zi).replace(tzinfo=None)) for i in SHARED_INSTANTS]
+            except Exception:  # noqa: BLE001
+                shared = []
+            walls = shared + walls
             sources = [("provider", z0)]
             try:
                 other = pytz.timezone(zone) if provider == "zoneinfo" else zoneinfo.ZoneInfo(zone)
@@ -220,8 +234,8 @@ def run(ctx, res):
             # lists and periods
             zb = tzp.timezone("Europe/Berlin" if zone != "Europe/Berlin" else "Asia/Tokyo")
             utc = tzp.timezone("UTC")
-            for li in range(3):
-                ws = sorted(rng.sample(walls, 3))
+            for li in range(4 if len(shared) >= 3 else 3):
+                ws = sorted(rng.sample(walls, 3)) if li < 3 else sorted(shared[:3])
                 same = [tzp.localize(naive(w), z0) for w in ws]
                 mixed = [same[0], tzp.localize(naive(ws[1]), zb), same[2]]
                 withutc = [same[0], tzp.localize(naive(ws[1]), utc)]
